@@ -101,6 +101,21 @@ def directed() -> list[dict[str, Any]]:
                                      [20.0, 'edit', 'o0', {'spec': {'x': 2}}]],
                         'quiet': None, 'horizon': 140.0, 'latency': 0.001, 'peering': {'name': 'default'},
                         'settings': {'queueing__idle_timeout': 1.0, 'persistence__consistency_timeout': ct}, 'end': 'stop', 'exit_wait': 60.0, 'ops': ops, 't_final': 40.0, 'post_yields': py}})
+    # the keep-alive of the active (top) operator fails for good on its n-th renewal (an API error that escalates after the retries): an operator that cannot
+    # keep its record alive does not go on as the active one without a record -- it stops as a whole (withdrawing what it can), and the other one takes over
+    for nth in (2, 3):
+        for lifetime in (10, 20):
+            for status in (500, 422):
+                ops = [{'name': 'op1', 'priority': 100, 'lifetime': lifetime}, {'name': 'op2', 'priority': 0, 'lifetime': lifetime}]
+                out.append({'name': f'dir-keepalive-fails-n{nth}-l{lifetime}-s{status}', 'desc': {
+                    'seed': 1, 'handlers': [{'kind': 'create', 'id': 'c1'}, {'kind': 'update', 'id': 'u1'}, {'kind': 'event', 'id': 'ev'}],
+                    'timeline': [[0.0, 'create', 'o0', {'spec': {'x': 0}}],
+                                 [0.5, 'start', 'op1', {'peering__priority': 100, 'peering__lifetime': lifetime}], [1.0, 'start', 'op2', {'peering__priority': 0, 'peering__lifetime': lifetime}],
+                                 [60.0, 'edit', 'o0', {'spec': {'x': 1}}], [80.0, 'edit', 'o0', {'spec': {'x': 2}}]],
+                    'faults': [{'client': 'op1', 'match': {'kind': 'patch', 'plural': 'clusterkopfpeerings'}, 'nth': [nth + k for k in range(4)], 'actions': [['status', {'status': status}]]}],
+                    'quiet': None, 'horizon': 140.0, 'latency': 0.001, 'peering': {'name': 'default'},
+                    'settings': {'queueing__idle_timeout': 1.0, 'persistence__consistency_timeout': 0.5, 'networking__error_backoffs': [0.1, 0.1]}, 'end': 'stop', 'exit_wait': 60.0,
+                    'ops': ops, 't_final': 100.0, 'post_yields': 0}})
     return out
 
 
@@ -150,15 +165,23 @@ def run_case(case: dict[str, Any]) -> dict[str, Any]:
         if inc is None:
             continue
         kill_t = next((e['t'] for e in w.events if e['k'] == 'op' and e['inc'] == name and e['what'] == 'killed'), None)
-        life[name] = {'t_start': inc.t_start, 't_stop': inc.t_stop_requested, 't_end': inc.t_end, 'killed': kill_t, 'exc': inc.exc}
-        if inc.exc is not None:
+        # an injected failure of this operator's own keep-alive (its requests on the peering object answered with errors until they escalate): from the first
+        # such request on it is on its way out -- failing fast IS what is expected of it, and it does not count as a running operator any more
+        t_fail = min((r.t for r in w.requests if r.client == name and r.plural == 'clusterkopfpeerings' and r.kind == 'patch' and r.fault and 'status' in str(r.fault)), default=None)
+        life[name] = {'t_start': inc.t_start, 't_stop': inc.t_stop_requested, 't_end': inc.t_end, 'killed': kill_t, 'exc': inc.exc, 't_fail': t_fail}
+        if inc.exc is not None and t_fail is None:
             viol.append({'mech': 'operator-crashed', 'msg': f"{name}: kopf.operator() raised {inc.exc!r}", 'witness': None})
+        if t_fail is not None:
+            cov['keepalive_failures'] = cov.get('keepalive_failures', 0) + 1
+            if inc.t_end is None or inc.t_end > t_fail + 30.0:
+                viol.append({'mech': 'operator-lingers-without-keepalive', 'msg': f"{name}: its keep-alive failed for good from t={t_fail} on, yet kopf.operator() went on until "
+                                                                                  f"{inc.t_end if inc.t_end is not None else 'the end of the run'}", 'witness': None})
 
     def running(name: str, t: float) -> bool:
         L = life[name]
         if L['t_start'] is None or t < L['t_start']:
             return False
-        end = min(x for x in [L['killed'], L['t_stop'], L['t_end'], float('inf')] if x is not None)
+        end = min(x for x in [L['killed'], L['t_stop'], L['t_end'], L.get('t_fail'), float('inf')] if x is not None)
         return t < end
 
     toggles: dict[str, list[tuple[float, bool]]] = {n: [] for n in ops}
